@@ -184,7 +184,8 @@ int __wrap_pthread_attr_setdetachstate(pthread_attr_t *a, int st) {
 
 int __wrap_pthread_create(pthread_t *th, const pthread_attr_t *attr, void *(*fn)(void *), void *arg) {
     if (!g_active) return __real_pthread_create(th, attr, fn, arg);
-    bool det = attr && attr_detached.count(attr) && attr_detached[attr];
+    // ask the attribute object itself (a map keyed by its address would go stale: attribute objects live on the stack and are re-initialised)
+    bool det = false; if (attr) { int st = PTHREAD_CREATE_JOINABLE; if (pthread_attr_getdetachstate(attr, &st) == 0) det = st == PTHREAD_CREATE_DETACHED; }
     int id = spawn(fn, arg, ROLE_WORKER, det, th);
     sched_point("create");
     return id >= 0 ? 0 : EAGAIN;
